@@ -696,7 +696,8 @@ func stateBeginArrayItemOrEmpty(s *Scanner, c byte) state {
 	if c == ']' {
 		return stateFoundArrayEnd(s)
 	}
-	if s.annotation == annotationNone {
+	if s.annotation == annotationNone && !bytes.IsBlank(c) {
+		// A blank inside the brackets does not make the array non-empty.
 		s.context.ArrayHasItem = true
 	}
 	return stateBeginValue(s, c)
